@@ -275,7 +275,8 @@ func runC05(a *A) {
 		// the one consumer is the processing goroutine; every other receive (migration into a larger
 		// channel, discarding what is queued at Stop) holds the data-channel lock exclusively, which the
 		// consumer's receive (under the read lock, C19 locks/receive-under-lock) cannot overlap
-		consumer := fname(a.Method("stream", "DataProcessor", "Process"))
+		consumerFn := a.Method("stream", "DataProcessor", "Process")
+		consumer := fname(consumerFn)
 		L := a.Locks()
 		key := lockKey{"stream.Stream", "dataChanMux"}
 		n := 0
@@ -298,7 +299,7 @@ func runC05(a *A) {
 					t := TermOf(ch, nil)
 					if t.Kind == "field" && t.Field == dc {
 						n++
-						if fname(fn) == consumer {
+						if fname(fn) == consumer || inlinePartOf(fn, consumerFn) {
 							a.Ok("recv(dataChan)@"+fname(fn), in.Pos(), "the single processing goroutine")
 						} else if L.Held(in)[key] == 'W' {
 							a.Ok("recv(dataChan)@"+fname(fn), in.Pos(), "receives with dataChanMux held exclusively (migration / discard at Stop): cannot overlap the consumer's receive")
@@ -424,6 +425,53 @@ func (a *A) ruleFreshChannelPerIteration() {
 					a.Check(fresh && stale == "", fname(fn)+"#channel-read-each-iteration", in.Pos(), "the input channel reference is re-read in every iteration before receiving",
 						"the processing loop can receive from a channel reference read at "+stale+" in an earlier iteration (or before the loop): after an expansion swaps the channel, rows are still taken from the old one while it is migrated, so emission order and exactly-once processing break")
 				}
+			}
+		}
+	}
+	// the receive of one iteration may sit in a function literal or a method the loop calls (the locked
+	// receive extracted into `nextItem`): it is fresh when that callee reads the channel reference itself
+	for _, li := range sccLoops(fn) {
+		for b := range li.Blocks {
+			for _, in := range b.Instrs {
+				call, ok := in.(*ssa.Call)
+				if !ok {
+					continue
+				}
+				g := call.Call.StaticCallee()
+				if g == nil || g.Blocks == nil || !(inlinePartOf(g, fn) || ssaPkgOf(g) == ssaPkgOf(fn)) {
+					continue
+				}
+				allInstrs(g, func(gin ssa.Instruction) {
+					sel, ok := gin.(*ssa.Select)
+					if !ok {
+						return
+					}
+					for _, st := range sel.States {
+						if st.Dir != types.RecvOnly {
+							continue
+						}
+						fresh, isData := true, false
+						var stale string
+						for _, leaf := range phiLeaves(st.Chan) {
+							d, c := isDataChan(leaf, dc)
+							if !d && !c {
+								continue
+							}
+							isData = true
+							lin, isIn := leaf.(ssa.Instruction)
+							if !(isIn && lin.Parent() == g) {
+								fresh = false
+								stale = a.pos(leaf.Pos())
+							}
+						}
+						if !isData {
+							continue
+						}
+						n++
+						a.Check(fresh, fname(fn)+"#channel-read-each-iteration", gin.Pos(), "the input channel reference is re-read in every iteration (by "+fname(g)+", called from the loop) before receiving",
+							"the processing loop can receive from a channel reference read at "+stale+" outside the iteration: after an expansion swaps the channel, rows are still taken from the old one while it is migrated, so emission order and exactly-once processing break")
+					}
+				})
 			}
 		}
 	}
